@@ -742,28 +742,49 @@ fn check_case(rules: &[RuleRef], cfg: Cfg, bat: &Battery, qs: &[Q], l: &mut Loca
         let mut ref_norp: Option<Engine> = None;
         let mut ref_perm0: Option<Engine> = None;
 
+        // answers of the three loaders
+        let mut gots: Vec<Option<Vec<Ans>>> = vec![];
         for kind in 0..LOADERS.len() {
             let loaded = match load(kind, &bytes0, &bytes_s, &tags, cfg) {
                 Ok(e) => e,
                 Err(msg) => {
                     fail(l, format!("c08.load-failed.{}", LOADERS[kind]), format!("deserialize of a buffer produced by serialize_raw failed: {}", msg));
+                    gots.push(None);
                     continue;
                 }
             };
             l.states += 1;
+            let mut v = Vec::with_capacity(qs.len());
             for (qi, &q) in qs.iter().enumerate() {
                 let got = ask(&loaded, q, bat, &dyn_exc);
                 l.transitions += 1;
                 l.evaluations += 1;
                 l.compared += 1;
-                let exp = &expected[qi];
-                if !trivial(exp) || !trivial(&got) {
+                if !trivial(&expected[qi]) || !trivial(&got) {
                     l.nontrivial += 1;
                 }
-                if got == *exp {
+                v.push(got);
+            }
+            gots.push(Some(v));
+        }
+        for (qi, &q) in qs.iter().enumerate() {
+            let exp = &expected[qi];
+            let wrong: Vec<usize> = (0..LOADERS.len())
+                .filter(|&k| gots[k].as_ref().map(|v| v[qi] != *exp).unwrap_or(false))
+                .collect();
+            if wrong.is_empty() {
+                continue;
+            }
+            // one root cause normally shows in every loader alike: then the loader is not part of
+            // the signature; a disagreement confined to some loaders names them
+            let uniform = wrong.len() == LOADERS.len()
+                && wrong.iter().all(|&k| gots[k].as_ref().unwrap()[qi] == gots[wrong[0]].as_ref().unwrap()[qi]);
+            for &kind in &wrong {
+                if uniform && kind != wrong[0] {
                     continue;
                 }
-                let fields = diff_fields(exp, &got);
+                let got = &gots[kind].as_ref().unwrap()[qi];
+                let fields = diff_fields(exp, got);
                 let mut sig = String::new();
                 // --- D11: $removeparam rules have no slot in the format
                 if fields == ["rewritten_url"] && has_rp {
@@ -777,7 +798,7 @@ fn check_case(rules: &[RuleRef], cfg: Cfg, bat: &Battery, qs: &[Q], l: &mut Loca
                         }
                     }
                     if let Some(r) = &ref_norp {
-                        if ask(r, q, bat, &dyn_exc) == got {
+                        if ask(r, q, bat, &dyn_exc) == *got {
                             sig = "c08.removeparam-lost".into();
                         }
                     }
@@ -794,11 +815,12 @@ fn check_case(rules: &[RuleRef], cfg: Cfg, bat: &Battery, qs: &[Q], l: &mut Loca
                         }
                     }
                     if let Some(r) = &ref_perm0 {
-                        if ask(r, q, bat, &dyn_exc) == got {
+                        if ask(r, q, bat, &dyn_exc) == *got {
                             sig = "c08.scriptlet-permission-lost".into();
                         }
                     }
                 }
+                let loader_name = if uniform { "every-loader" } else { LOADERS[kind] };
                 if sig.is_empty() {
                     let fam = match q {
                         Q::Net(_) => "net",
@@ -806,18 +828,18 @@ fn check_case(rules: &[RuleRef], cfg: Cfg, bat: &Battery, qs: &[Q], l: &mut Loca
                         Q::Cos(_) => "cosmetic",
                         Q::Sel(_) => "classid",
                     };
-                    sig = format!("c08.{}.{}.loader-{}", fam, fields.join("+"), LOADERS[kind]);
+                    sig = format!("c08.{}.{}.{}", fam, fields.join("+"), if uniform { "every-loader".to_string() } else { format!("loader-{}", LOADERS[kind]) });
                 }
                 let mut c = case_json(rules, cfg);
                 c["tags"] = json!(tags);
-                c["loader"] = json!(LOADERS[kind]);
+                c["loader"] = json!(loader_name);
                 c["query"] = describe(q, bat);
                 l.mismatch(Mismatch {
                     sig,
                     what: format!(
                         "list {:?} debug={} optimize={} permission={} tags={:?} loader={} query {}: original answers {:?}, reloaded engine answers {:?}",
                         rules.iter().map(|(r, _)| r.as_str()).collect::<Vec<_>>(),
-                        cfg.debug, cfg.optimize, cfg.perm, tags, LOADERS[kind], describe(q, bat), exp, got
+                        cfg.debug, cfg.optimize, cfg.perm, tags, loader_name, describe(q, bat), exp, got
                     ),
                     case: c,
                     size: case_size(rules, cfg, &tags),
